@@ -78,6 +78,11 @@ def _bigint_backend(prop, v):
 def _union_perm(prop, v):
     """Union[A, B] == Union[B, A] and they hash alike, so every equality-keyed cache (routine, graph, predicates) serves
     the routine built for whichever spelling came first in the process."""
+    if prop == "C17":
+        # Optional[X] == X | None (and Union[A, B] == Union[B, A]): a memoised spelling-sensitive accessor answers for
+        # whichever spelling came first, so its answer changes after cache_clear()
+        return (v.get("kind") == "predicate-unstable" and v.get("union_object") is True
+                and v.get("predicate") in ("origin", "name", "qualname", "args", "isgeneric", "issubscriptedgeneric", "resolve_supertype", "unwrap"))
     return v.get("kind") in ("permutation-served-from-cache",) or (
         v.get("kind") == "history-dependent" and v.get("mechanism") == "union-permutation")
 
